@@ -2,7 +2,10 @@
 //! decided by controlled-scheduler exploration (shuttle 0.9.3) of the real
 //! `SampleStreamSource` / `SampleStreamTrack` / `SpscRing` code built with `--cfg rustrtc_verif`,
 //! whose atomics and pop lock call the scheduling point registered below before and after
-//! every operation.
+//! every operation. Oracles: identity / once / order / eos / balance over what the consumer
+//! received (exec.rs) and C20.release over the payloads (payload.rs): each `Bytes` payload that
+//! was created is released exactly once, whichever way it left the queue - also when the last
+//! handle is dropped over a ring that is still (exactly) full.
 //!
 //!   c20 check <quick|thorough>      explore, judge, triage against known findings, write evidence
 //!   c20 --replay <replay.json>      re-run one persisted failing schedule (exit 1 = reproduced)
@@ -14,6 +17,7 @@
 mod exec;
 mod known;
 mod miri;
+mod payload;
 mod sched;
 mod sctp_send;
 mod workload;
@@ -31,6 +35,11 @@ use std::path::{Path, PathBuf};
 use std::process::{Command, Stdio};
 use std::sync::Arc;
 use workload::{generate, mix, Workload};
+
+/// keeps the reference-count blocks of released payloads alive until the execution has been
+/// judged, so that a second release is observed instead of corrupting the heap (payload.rs)
+#[global_allocator]
+static ALLOC: payload::QuarantineAlloc = payload::QuarantineAlloc;
 
 const PROP: &str = "C20";
 const DEFAULT_SEED: u64 = 20260925;
@@ -124,13 +133,19 @@ struct Tier {
     scenarios: u32,
     random_per_scenario: usize,
     pct_per_scenario: usize,
+    /// teardown families (scenario ids from workload::TEARDOWN_BASE on): how many ids, and the
+    /// schedule budget of each (their workloads are small: a handful of pushes, a consumer that
+    /// leaves early)
+    td_scenarios: u32,
+    td_random_per_scenario: usize,
+    td_pct_per_scenario: usize,
     /// Miri seeds per driver mode (0 = Miri is not part of this tier)
     miri_seeds: u64,
 }
 fn tier(name: &str) -> Option<Tier> {
     match name {
-        "quick" => Some(Tier { name: "quick", scenarios: 256, random_per_scenario: 28000, pct_per_scenario: 12000, miri_seeds: 0 }),
-        "thorough" => Some(Tier { name: "thorough", scenarios: 3072, random_per_scenario: 40000, pct_per_scenario: 20000, miri_seeds: 64 }),
+        "quick" => Some(Tier { name: "quick", scenarios: 256, random_per_scenario: 28000, pct_per_scenario: 12000, td_scenarios: 64, td_random_per_scenario: 10000, td_pct_per_scenario: 5000, miri_seeds: 0 }),
+        "thorough" => Some(Tier { name: "thorough", scenarios: 3072, random_per_scenario: 40000, pct_per_scenario: 20000, td_scenarios: 768, td_random_per_scenario: 20000, td_pct_per_scenario: 10000, miri_seeds: 64 }),
         _ => None,
     }
 }
@@ -152,7 +167,7 @@ fn seed_from_env() -> Result<u64, String> {
 fn scenarios_of(seed: u64, t: &Tier) -> Vec<Workload> {
     let mut seen = BTreeSet::new();
     let mut out = vec![];
-    for id in 0..t.scenarios {
+    for id in (0..t.scenarios).chain(workload::TEARDOWN_BASE..workload::TEARDOWN_BASE + t.td_scenarios) {
         let w = generate(seed, id);
         let mut key = w.to_json();
         key.as_object_mut().unwrap().remove("id");
@@ -224,6 +239,8 @@ fn install_process_hooks() {
     rustrtc::verif_hooks::sync::set_sched_point(exec::sched_point);
     // track ids come from rustrtc's random helper; pin it so nothing in a run depends on the OS
     rustrtc::verif_hooks::set_random_source(Some(Box::new(|b: &mut [u8]| b.fill(0x20))));
+    // turns the payload quarantine on if (and only if) it works on this build
+    payload::selftest();
 }
 
 fn panic_text(p: &(dyn std::any::Any + Send)) -> String {
@@ -242,6 +259,13 @@ fn classify(msg: &str, log: &Option<(Value, u64)>) -> (String, String, String) {
         let mut it = rest.splitn(3, '|');
         let (o, k, d) = (it.next().unwrap_or("?"), it.next().unwrap_or("?"), it.next().unwrap_or(""));
         return (o.into(), k.into(), d.into());
+    }
+    if msg.contains(payload::BYTES_DOUBLE_DROP_PANIC) {
+        // bytes' debug assertion: a `Bytes` over an owner was dropped after its reference count
+        // had reached zero, i.e. a stale bitwise copy of a payload that was released before
+        let which = log.as_ref().map(|(l, _)| l["release"]["dropped_again_after_release"].to_string()).unwrap_or_default();
+        let td = log.as_ref().map(|(l, _)| l["teardown"].to_string()).unwrap_or_default();
+        return ("C20.release".into(), "released_twice".into(), format!("double free: a payload that had been released was dropped again (bytes: {}): {which}; teardown {td}", payload::BYTES_DOUBLE_DROP_PANIC));
     }
     if msg.contains("deadlock!") {
         // recv() is the only blocking call in a scenario, producers never block: every thread
@@ -307,7 +331,8 @@ fn explore_scenario(w: &Workload, seed: u64, t: &Tier, workdir: &Path) -> Value 
     let mut skipped = 0usize;
     let mut per_sched: BTreeMap<String, u64> = BTreeMap::new();
     let mut chunk = 0u64;
-    for (is_pct, budget) in [(false, t.random_per_scenario), (true, t.pct_per_scenario)] {
+    let (random_budget, pct_budget) = if w.id >= workload::TEARDOWN_BASE { (t.td_random_per_scenario, t.td_pct_per_scenario) } else { (t.random_per_scenario, t.pct_per_scenario) };
+    for (is_pct, budget) in [(false, random_budget), (true, pct_budget)] {
         let mut remaining = budget;
         while remaining > 0 {
             if failure_counts.values().sum::<u64>() as usize >= MAX_FAILURES_PER_SCENARIO {
@@ -397,6 +422,10 @@ fn explore_scenario(w: &Workload, seed: u64, t: &Tier, workdir: &Path) -> Value 
         "samples_received": stats.samples_received,
         "samples_lost_to_overflow": stats.samples_lost_to_overflow,
         "probes": stats.probes,
+        "payloads_created": stats.payloads_created,
+        "payloads_released_by": payload::PATHS.iter().zip(stats.released_by.iter()).map(|(k, v)| (k.to_string(), json!(v))).collect::<serde_json::Map<String, Value>>(),
+        "teardown": { "empty": stats.teardown[0], "partly_filled": stats.teardown[1], "full": stats.teardown[2] },
+        "teardown_full_by_capacity": stats.teardown_full_by_capacity.iter().map(|(k, v)| (k.to_string(), json!(v))).collect::<serde_json::Map<String, Value>>(),
         "failure_counts": failure_counts,
         "failures": failures.iter().map(|f| json!({
             "oracle": f.oracle, "kind": f.kind, "detail": f.detail, "scheduler": f.scheduler,
@@ -623,7 +652,21 @@ fn check(t: Tier) -> i32 {
     let mut by_sched: BTreeMap<String, u64> = BTreeMap::new();
     let mut by_family: BTreeMap<String, u64> = BTreeMap::new();
     let mut per_scenario = vec![];
+    let mut released_by: BTreeMap<String, u64> = BTreeMap::new();
+    let mut teardown: BTreeMap<String, u64> = BTreeMap::new();
+    let mut teardown_full_by_capacity: BTreeMap<String, u64> = BTreeMap::new();
+    let mut teardown_by_family: BTreeMap<String, BTreeMap<String, u64>> = BTreeMap::new();
+    let mut by_consumer: BTreeMap<String, u64> = BTreeMap::new();
     for r in &results {
+        for (k, v) in r["payloads_released_by"].as_object().into_iter().flatten() {
+            *released_by.entry(k.clone()).or_insert(0) += v.as_u64().unwrap_or(0);
+        }
+        for (k, v) in r["teardown"].as_object().into_iter().flatten() {
+            *teardown.entry(k.clone()).or_insert(0) += v.as_u64().unwrap_or(0);
+        }
+        for (k, v) in r["teardown_full_by_capacity"].as_object().into_iter().flatten() {
+            *teardown_full_by_capacity.entry(k.clone()).or_insert(0) += v.as_u64().unwrap_or(0);
+        }
         for (k, v) in r["probes"].as_object().into_iter().flatten() {
             *probes.entry(format!("probe.{k}")).or_insert(0) += v.as_u64().unwrap_or(0);
         }
@@ -633,9 +676,14 @@ fn check(t: Tier) -> i32 {
         let id = r["scenario"].as_u64().unwrap_or(0) as u32;
         if let Some(w) = by_id.get(&id) {
             *by_family.entry(w.family.to_string()).or_insert(0) += r["executions"].as_u64().unwrap_or(0);
+            *by_consumer.entry(w.consumer.label().to_string()).or_insert(0) += r["executions"].as_u64().unwrap_or(0);
+            let f = teardown_by_family.entry(w.family.to_string()).or_default();
+            for (k, v) in r["teardown"].as_object().into_iter().flatten() {
+                *f.entry(k.clone()).or_insert(0) += v.as_u64().unwrap_or(0);
+            }
             per_scenario.push(json!({
                 "scenario": id, "family": w.family, "class": w.scenario_class(), "capacity": w.capacity,
-                "producers": w.producers.len(), "pushes": w.total_pushes(), "stop": w.has_stop(),
+                "producers": w.producers.len(), "pushes": w.total_pushes(), "stop": w.has_stop(), "consumer": w.consumer.label(), "teardown": r["teardown"],
                 "executions": r["executions"], "distinct_schedules": r["distinct_schedules"],
                 "distinct_nontrivial_schedules": r["distinct_nontrivial_schedules"],
                 "failure_counts": r["failure_counts"], "budget_skipped": r["budget_skipped"],
@@ -675,12 +723,21 @@ fn check(t: Tier) -> i32 {
             miri_runs += mode.seeds.1 - mode.seeds.0;
             // a stand-in workload so that known-findings patterns (scenario_class ...) apply
             let w = Workload {
-                id: if mode.mode == "sp" { 1_000_001 } else { 1_000_002 },
-                family: if mode.mode == "sp" { "miri_sp" } else { "miri_mp" },
+                id: match mode.mode {
+                    "sp" => 1_000_001,
+                    "mp" => 1_000_002,
+                    _ => 1_000_003,
+                },
+                family: match mode.mode {
+                    "sp" => "miri_sp",
+                    "mp" => "miri_mp",
+                    _ => "miri_td",
+                },
                 capacity: 2,
                 mode: workload::SourceMode::Cloned,
-                producers: if mode.mode == "sp" { vec![vec![workload::Op::Send, workload::Op::TrySend, workload::Op::SendMany(2)]] } else { vec![vec![workload::Op::Send, workload::Op::TrySend]; 2] },
+                producers: if mode.mode == "mp" { vec![vec![workload::Op::Send, workload::Op::TrySend]; 2] } else { vec![vec![workload::Op::Send, workload::Op::TrySend, workload::Op::SendMany(2)]] },
                 controller: vec![],
+                consumer: if mode.mode == "td" { workload::Consumer::AbandonAfter(0) } else { workload::Consumer::Drain },
             };
             for (mseed, oracle, kind, detail) in &mode.failing {
                 cands.push(Cand {
@@ -795,7 +852,9 @@ fn check(t: Tier) -> i32 {
         println!("HARNESS ERROR: {replay_unconfirmed} replay file(s) did not reproduce in a fresh process");
         exit = 2;
     }
-    let mut samples: Vec<Value> = workloads.iter().filter(|w| [1u32, 3, 5, 9, 13].contains(&w.id)).map(|w| w.to_json()).collect();
+    let tb = workload::TEARDOWN_BASE;
+    let mut samples: Vec<Value> = workloads.iter().filter(|w| [1u32, 3, 5, 9, 13, tb, tb + 3, tb + 6, tb + 7, tb + 9, tb + 12].contains(&w.id)).map(|w| w.to_json()).collect();
+    let selftest = payload::selftest();
     samples.extend(viol_samples);
     let ev = json!({
         "property_id": PROP,
@@ -805,7 +864,7 @@ fn check(t: Tier) -> i32 {
         "coverage": {
             "evaluations": evaluations,
             "distinct_nontrivial": distinct_nt,
-            "rule": "one evaluation = one shuttle execution (one complete thread interleaving, decided at every atomic / lock operation of spsc.rs and track.rs, before and after it) of one workload. A workload = (queue capacity 1..64, shared-Arc or cloned source handles, 1..4 producer threads each with a list of send / try_send / send_many(0..3) / stop / clone+drop operations followed by dropping its handle, optional bystander thread calling stop(), one consumer thread looping on track.recv() under shuttle::future::block_on); it is a pure function of (VERIF_SEED, scenario id), 16 families guarantee capacity 1 and 2, producers pushing 0 / 1 / several samples, stop and 1..4 producers in every batch; ids that expand to an already-seen workload are left out. Schedules come from shuttle's RandomScheduler and PctScheduler (depth 2..5), seeded from (VERIF_SEED, scenario id, chunk). distinct = the sequence of task ids the scheduler chose (hashed, per scenario) was not seen before in that scenario; non-trivial = the execution ran to its end and the consumer received a sample while a producer handle was still alive, or parked before the close, or drained a sample after the close, or a push met a full ring (drop / WouldBlock), or stop() fell inside a send. Executions ending in a violation are counted in evaluations and distinct_schedules but never in distinct_nontrivial.",
+            "rule": "one evaluation = one shuttle execution (one complete thread interleaving, decided at every atomic / lock operation of spsc.rs and track.rs, before and after it) of one workload. A workload = (queue capacity 1..64, shared-Arc or cloned source handles, 1..4 producer threads each with a list of send / try_send / send_many(0..3) / stop / clone+drop operations followed by dropping its handle, optional bystander thread calling stop(), one consumer thread with a behaviour: `drain` = loop on track.recv() under shuttle::future::block_on until EndOfStream (the creating thread keeps its track handle until the run is judged); `abandon_after(k)` = receive at most k samples (k = 0: never call recv), drop the track handle, return; `stop_then_abandon(k)` = the same with stop() before the handle goes; `stall_then_drain(k)` = receive k, yield to the scheduler until every producer thread has dropped its source handle, then drain to EndOfStream. In the last three the creating thread drops its source AND its track handle right after spawning, so the LAST handle of the ring (a source or the track, whichever the schedule makes last) is dropped with whatever is still queued and SpscRing::drop has to release it. A workload is a pure function of (VERIF_SEED, scenario id). Ids 0.. select one of 16 drain families by id % 16 (they guarantee capacity 1 and 2, producers pushing 0 / 1 / several samples, stop and 1..4 producers in every batch); ids 100000.. select one of 16 teardown families by (id - 100000) % 16: td_abandon_cap1_full / _cap2_full / _cap4_full (one producer sends at least `capacity` samples, k = 0: ring exactly full at teardown, kept full by drop-oldest), td_abandon_try_send_full (try_send only, capacity 1/2/4 in turn: ring left full, further pushes refused), td_abandon_partly_filled (fewer pushes than slots), td_abandon_empty (nothing pushed), td_abandon_after_k (k = 1..2 while the producer overflows: any fill level, head and tail anywhere), td_abandon_2p_full and td_abandon_3p_mixed (several producers), td_stop_then_abandon and td_abandon_stop_elsewhere (stop() by the consumer / a producer / a bystander before the handles go), td_stall_cap1_overflow, td_stall_cap2_or_4, td_stall_2p, td_stall_with_stop, td_random; families that do not fix the capacity take 1, 2, 4 in turn with the id, so every batch tears down capacity 1, 2 and 4 rings exactly full, partly filled and empty with one and with several producers (counted: coverage.teardown*, probe.teardown_*). Ids that expand to an already-seen workload are left out. Every sample's payload is a bytes::Bytes made with Bytes::from_owner over an owner whose Drop counts the release of payload (producer, index) and the path that released it; nothing in the harness keeps a clone. Oracles on every execution: identity / once / order / eos / balance over what was received (an abandoning consumer owes no EndOfStream), and C20.release once every thread has ended and every handle is gone: each payload created was released exactly once (`leaked` = never, `released_twice` = more than once, `released_while_queued` = recv() delivered a sample whose payload had been released before). Schedules come from shuttle's RandomScheduler and PctScheduler (depth 2..5), seeded from (VERIF_SEED, scenario id, chunk). distinct = the sequence of task ids the scheduler chose (hashed, per scenario) was not seen before in that scenario; non-trivial = the execution ran to its end and the consumer received a sample while a producer handle was still alive, or parked before the close, or drained a sample after the close, or a push met a full ring (drop / WouldBlock), or stop() fell inside a send, or the last handle was dropped with at least one sample still queued. Executions ending in a violation are counted in evaluations and distinct_schedules but never in distinct_nontrivial.",
             "samples": samples,
             "distinct_schedules": distinct,
             "scenarios": results.len(),
@@ -816,6 +875,10 @@ fn check(t: Tier) -> i32 {
             "scheduling_decisions": sum("steps"),
             "executions_by_scheduler": by_sched,
             "executions_by_family": by_family,
+            "executions_by_consumer_behaviour": by_consumer,
+            "teardown": { "what": "executions by what the ring held when its last handle (source or track) was dropped; full = exactly `capacity` samples queued", "total": teardown, "full_by_capacity": teardown_full_by_capacity, "by_family": teardown_by_family },
+            "payloads": { "created": sum("payloads_created"), "released_by_path": released_by, "what": "payloads (Bytes::from_owner) created by the producers and the path that released each: the consumer after recv(), the producer's own try_send that refused it, the queue on overflow (dropped its oldest / discarded the new sample because the consumer held the pop lock), SpscRing::drop at teardown; C20.release demands exactly one release per payload" },
+            "release_selftest": { "quarantine_of_released_payload_blocks": selftest.quarantine, "single_release_counted_once": selftest.single_release_counted_once, "double_release_detected": selftest.double_release_detected, "how": selftest.how },
             "budget_skipped_after_repeated_failures": sum("budget_skipped"),
             "samples_accepted": sum("samples_accepted"),
             "samples_received": sum("samples_received"),
@@ -834,7 +897,8 @@ fn check(t: Tier) -> i32 {
             "interleavings are explored at the granularity of the wrapped operations (every atomic load/store/RMW and every pop-lock acquisition in spsc.rs and track.rs, before and after); the code between two such points runs atomically, which is exact for sequentially consistent executions — weak-memory reorderings are outside shuttle and are left to the Miri engine",
             "tokio::sync::Notify and the std atomic `active_senders` are not wrapped: each of their calls is one atomic step here",
             "the hook Mutex::lock spins on try_lock with a scheduling point per turn; under PCT every 8th scheduling point is a yield so a spinning high-priority thread cannot starve the lock holder",
-            "samples carry no heap data (static payload bytes), so a slot delivered twice is observed as a duplicate without undefined behaviour in the harness; a workload that still crashes the exploring process is reported as C20.ub",
+            "payload bytes are static; what lives on the heap is the reference-count block bytes allocates for the owner (Bytes::from_owner). The process allocator parks the block of a released payload until the execution has been judged, so a slot read twice (a second drop of a stale copy) is observed - bytes' debug assertion or a non-zero count word in the parked block = C20.release released_twice - instead of corrupting the exploring process; the consumer never drops a sample it recognises as a duplicate, as corrupt or as already released (it forgets it and the oracles report it). This rests on the private layout of bytes 1.12 `Owned<T>`; coverage.release_selftest says whether it held on this build. A workload that still crashes the exploring process is reported as C20.ub",
+            "a payload is attributed to the teardown when it is released while some thread is inside the drop of a source or track handle; the fill level at teardown is the number of payloads created and not yet released when the last handle begins to drop (every other thread has ended its pushes and receives by then)",
             "a clean batch is evidence over the sampled schedules and workloads, not a proof",
         ],
         "wall_s": wall,
